@@ -7,7 +7,7 @@ set -u
 ROOT="$(cd "$(dirname "${BASH_SOURCE[0]}")/.." && pwd)"
 ID="$1"; TARGET="$2"; RUNS="$3"; WORKERS="${4:-8}"
 SEED="${VERIF_SEED:-1}"; [ "$SEED" = 0 ] && SEED=1
-export CARGO_NET_OFFLINE=true VERIF_ROOT="$ROOT"
+export CARGO_NET_OFFLINE=true VERIF_ROOT="$ROOT" CARGO_TARGET_DIR="$ROOT/fuzz/target"
 LOG="$ROOT/work/fuzz-$TARGET.build.log"; mkdir -p "$ROOT/work" "$ROOT/replays"
 if ! (cd "$ROOT/fuzz" && flock "$ROOT/target/.fuzzbuild.lock" cargo +nightly fuzz build --fuzz-dir "$ROOT/fuzz" --sanitizer none "$TARGET") >"$LOG" 2>&1; then
   grep -E "^error" -A 10 "$LOG" | head -40 >&2; echo "fuzz build failed" >&2; exit 2
